@@ -14,43 +14,54 @@ def build():
 
 def run(tier, deadline):
     t0 = time.time(); build()
-    env = dict(os.environ, CAT_LIB=vbuild.build("prod"))
+    # the library as configured here (prod, -O0) and, in the thorough tier, the quick-sized enumeration once more on the library built the way a
+    # default ./configure builds it (dist: -O2, _FORTIFY_SOURCE=2, the repository's hardening flags)
+    envs = {v: dict(os.environ, CAT_LIB=vbuild.build(v)) for v in (("prod",) if tier == "quick" else ("prod", "dist"))}
     N = 5 if tier == "quick" else 9
     jobs = []
     for kind in ("str", "wcs"):
         for sh in range(8): jobs.append([kind, str(N), "0", str(sh), "8"])
         for sh in range(8): jobs.append([kind, str(4 if tier == "quick" else 7), "1", str(sh), "8"])
+    def mkjobs(tier):
+        N = 5 if tier == "quick" else 9
+        jobs = []
+        for kind in ("str", "wcs"):
+            for sh in range(8): jobs.append([kind, str(N), "0", str(sh), "8"])
+            for sh in range(8): jobs.append([kind, str(4 if tier == "quick" else 7), "1", str(sh), "8"])
+        return jobs
+    jobs = [("prod", j) for j in jobs] + ([("dist", j) for j in mkjobs("quick")] if tier == "thorough" else [])
     viol = {}; internal = []; tot = {"histories": 0, "calls": 0, "states": 0, "transitions": 0}; timed_out = []
-    def one(j):
+    def one(vj):
+        v, j = vj
         left = deadline - (time.time() - t0)
-        try: return j, subprocess.run([BIN] + j, capture_output=True, text=True, errors="replace", env=env, timeout=max(5, left))
-        except subprocess.TimeoutExpired: timed_out.append(j); return j, None
+        try: return vj, subprocess.run([BIN] + j, capture_output=True, text=True, errors="replace", env=envs[v], timeout=max(5, left))
+        except subprocess.TimeoutExpired: timed_out.append(vj); return vj, None
     with ThreadPoolExecutor(16) as ex:
-        for j, r in ex.map(one, jobs):
+        for (v, j), r in ex.map(one, jobs):
             if r is None: continue
             if r.returncode != 0: internal.append(f"{j}: exit {r.returncode} {r.stderr[-200:]}"); continue
             for ln in r.stdout.splitlines():
                 if not ln.startswith("{"): continue
                 o = json.loads(ln)
-                if o["t"] == "viol": e = viol.setdefault(o["sig"], [0, o["case"]]); e[0] += o["n"]
+                if o["t"] == "viol": e = viol.setdefault(o["sig"], [0, o["case"], v]); e[0] += o["n"]
                 elif o["t"] == "stat":
                     for k in tot: tot[k] += o[k]
     if internal:
         for m in internal[:10]: print("INTERNAL-ERROR:", m, file=sys.stderr)
         return 2
-    violations = [common.Violation(sig, "", f"property=C14\nsignature={sig}\ncase={case}\n", n) for sig, (n, case) in sorted(viol.items())]
+    violations = [common.Violation(sig, "" if v == "prod" else "library build: " + v, f"property=C14\nvariant={v}\nsignature={sig}\ncase={case}\n", n) for sig, (n, case, v) in sorted(viol.items())]
     def confirm(v):
         kv = dict(l.split("=", 1) for l in v.replay_text.strip().splitlines()); return replay(kv, quiet=True) == 1
     cov = {"states": max(1, tot["states"]), "transitions": max(1, tot["transitions"]), "traces_validated_against_impl": tot["histories"],
            "samples": ["str 612c62 0 2  (string 'a,b', dmax=len+1, delimiters ',;' on every call)", "wcs 613b3b62 1 0", "str 2c612c 2 2 (unterminated)", "str 612c623b61 0 021 (per-call delimiter sequence)"],
            "evaluations": tot["calls"], "distinct_nontrivial": tot["states"], "string_length_bound": N, "histories": tot["histories"], "calls": tot["calls"],
            "rule": "every string over {a,b,',',';',0xA7} of length 0..N x dmax in {len+1, len+3 (slack), len+6 (the tail of an older record with both separators behind the terminator), len (unterminated, flush against PROT_NONE)} x delimiter sets {',', ';', ',;', '', 16 chars, 17 chars, 0xA7, ',' + 0xA7}; the history strtok(s), strtok(NULL)... is continued until two consecutive NULLs; thorough/branching: every per-call choice among three sets, BFS de-duplicated on (buffer bytes, *ptr offset, *dmaxp); oracle after every call: returned pointer and token text, buffer bytes, *ptr inside the string, *ptr offset + *dmaxp <= original dmax, NULL forever after the end",
-           "jobs_timed_out": len(timed_out)}
+           "jobs_timed_out": len(timed_out), "library_builds": sorted(envs)}
     return common.finish("C14", tier, t0, cov, violations, ["reference tokenizer (20 lines) implements strtok semantics per call"], confirm=confirm, exhaustive=not timed_out)
 
 
 def replay(kv, quiet=False):
     build(); c = kv["case"].split()
-    r = subprocess.run([BIN, "replay"] + c, capture_output=True, text=True, errors="replace", env=dict(os.environ, CAT_LIB=vbuild.build("prod")))
+    r = subprocess.run([BIN, "replay"] + c, capture_output=True, text=True, errors="replace", env=dict(os.environ, CAT_LIB=vbuild.build(kv.get("variant", "prod"))))
     if not quiet: sys.stdout.write(r.stdout); sys.stderr.write(r.stderr)
     return r.returncode
